@@ -13,7 +13,7 @@ for sid, e in idx.items():
     if os.path.exists(dst + "/meta.json") or not os.path.exists(ev):
         continue
     txt = open(ev).read()
-    if "== checks" not in txt or txt.count("exit=") < 5 or not txt.rstrip().splitlines()[-1].startswith("    "):
+    if "== checks" not in txt or txt.count("exit=") < 3 or not txt.rstrip().splitlines()[-1].startswith("    "):
         continue
     env = dict(os.environ, SEED_HISTORY=e.get("history", ""))
     r = subprocess.run(["python3", here + "/tools/seedkeep.py", src, str(e["i"]), sid, e["property"], e["needs"]], env=env, capture_output=True, text=True)
